@@ -45,22 +45,35 @@ class WildcardBinFactory(object):
         return (value,mask)
     
     @classmethod
-    def valmask2binlist(cls, value, mask):
-        """Converts value/mask representation to a list of bin specifications"""
-        
-        n_bits = 0
+    def str2width(cls, val) -> int:
+        """Returns the number of bits denoted by a wildcard string"""
+        if val[:2] in ("0o", "0O"):
+            digit_bits = 3
+        elif val[:2] in ("0x", "0X"):
+            digit_bits = 4
+        elif val[:2] in ("0b", "0B"):
+            digit_bits = 1
+        else:
+            raise Exception("unknown base for value %s" % str(val))
+        return digit_bits * len([c for c in val[2:] if c != '_'])
+    
+    @classmethod
+    def valmask2binlist(cls, value, mask, n_bits=0):
+        """Converts value/mask representation to a list of bin specifications.
+        n_bits optionally gives the width of the pattern, so that wildcard
+        positions above the highest mask bit are expanded as well"""
         
         mask_t = mask
         bit_i = 0
 
         total_mask_bits = 0
         directives = []
-        while mask_t != 0:
+        while mask_t != 0 or bit_i < n_bits:
             if (mask_t & 1) == 0:
                 # Collect this grouping
                 group_start_bit = bit_i
                 group_n_bits = 0
-                while (mask_t & 1) == 0:
+                while (mask_t & 1) == 0 and (mask_t != 0 or bit_i < n_bits):
                     group_n_bits += 1
                     total_mask_bits += 1
                     mask_t >>= 1
